@@ -474,3 +474,7 @@ Example C02_parentref_child_nonvacuous :
   /\ child_rows "*" doc_rp = [(2%N, Some 2%N); (4%N, Some 4%N); (9%N, Some 9%N)]
   /\ child_rows "s.*" doc_esc = [(12%N, Some 12%N); (13%N, Some 13%N)].
 Proof. vm_compute. repeat split; reflexivity. Qed.
+
+(* Every remaining statement of this file, so that none is left unaudited. *)
+Print Assumptions C02_path_resolves_refuted.
+Print Assumptions C02_reported_path_is_built_refuted.
